@@ -323,6 +323,9 @@ fn orders(ctx: &Ctx) {
     let mut unis = vec![Universe::new("U_ab3{a,b}", &["a", "b"], 3, if thorough { 4 } else { 3 }, true)];
     unis.push(Universe::new("U_case{a,A,b,B}", &["a", "A", "b", "B"], 2, 3, true));
     unis.push(Universe::new("U_mb{a,e9,b,fc}", &["a", "\u{e9}", "b", "\u{fc}"], 2, 3, false));
+    // letters whose case pair std knows and the regex crate's fold table does not (Unicode 16 additions), next to
+    // ordinary case pairs: what one list element decides about the shared lower-cased form must not depend on its place
+    unis.push(Universe::new("U_fold16{U+0264,U+A7CB,U+019B,U+A7DC,A,a}", &["\u{264}", "\u{a7cb}", "\u{19b}", "\u{a7dc}", "A", "a"], 2, 2, false));
     if thorough {
         unis.push(Universe::new("U_adv(A_case)", A_CASE, 1, 4, true));
     }
